@@ -85,7 +85,14 @@ int main() {
                   if (!inside) accbad++; }
             catch (...) {}
         }
-        o.word("ACCBAD"); o.put(accbad);
+        // every index below size() must have storage: operator[] does not check (address computation only, nothing is dereferenced here)
+        long nostore = 0;
+        for (size_t i = 0; i < sz; ++i) {
+            int* e = &(*v)[i]; bool inside = false;
+            for (auto& al : g_allocs) if (al.live && (char*)e >= al.p && (char*)(e + 1) <= al.p + al.bytes) inside = true;
+            if (!inside) nostore++;
+        }
+        o.word("ACCBAD"); o.put(accbad); o.word("NOSTORE"); o.put(nostore);
         // the vector must remain destructible
         delete v;
         long live = 0; for (auto& a : g_allocs) if (a.live) live++;
